@@ -75,3 +75,16 @@ Definition md_pad_N (A : algo) (total : N) : list N :=
    into [chain] *)
 Definition md_continue (A : algo) (chain : list N) (tail : list N) (total : N) : list N :=
   a_final A (fold_left (a_compress A) (chunks (a_bsize A) (tail ++ md_pad_N A total)) chain).
+
+(* The same algorithm seen from a mid-stream state: [chain] replaces the IV and the length
+   field counts the [pre] bytes (a multiple of the block size) already folded into it.
+   The L0 acceptor instantiated with [shift_algo A chain pre] is the acceptor for contexts
+   that start IDLE with chain [chain], total [pre + length part] and abstract stream [part]
+   (used by the C15 tie; observed totals are reported to it minus [pre]). *)
+Definition shift_algo (A : algo) (chain : list N) (pre : N) : algo :=
+  {| a_bsize := a_bsize A; a_lenfld := a_lenfld A; a_iv := chain; a_compress := a_compress A;
+     a_lenbytes := fun bits => a_lenbytes A (bits + 8 * pre)%N;
+     a_final := a_final A; a_digest_bytes := a_digest_bytes A |}.
+
+(* abstract state of a context injected IDLE with unhashed bytes [part] *)
+Definition spec_injected (part : list N) : actx := {| s_stream := part; s_phase := AIdle |}.
